@@ -1,4 +1,5 @@
 """Observation records of the C05/C08 harnesses (harness/p9/vhfs_driver_test.go) -> Coq terms of Refs/Cases.v."""
+import json
 import vlib
 from vlib import coq_bool
 
@@ -136,3 +137,47 @@ def diagnose(ctx, pid, o):
     """first differing step of one history (for the log / replay file)"""
     r = ctx.coq_eval(pid + "_diag", cases_text([o], diagnose=True), ["D"], timeout=600)
     return r["D"] if r else None
+
+
+# ---- evidence: which records count, which are shown -------------------------------------------------
+B_CLOSE, B_RENAMEAT = 11, 9
+CHANGERS = ("rename", "renameat", "unlinkat", "remove")
+
+
+def calls_of(o):
+    return [c for s in o["steps"] for c in s["log"]] if "steps" in o and not o.get("gated") else [c for c in o.get("log", [])]
+
+
+def nontrivial(o, pid):
+    """The stated rule for `distinct_nontrivial`: a gated scenario; or a history of >= 3 requests in which
+    (C05) at least one File was closed, or (C08) at least one rename/unlink request succeeded."""
+    if o.get("gated"):
+        return True
+    steps = o["steps"]
+    if len(steps) < 3:
+        return False
+    if pid == "C05":
+        return any(c and c[0] == B_CLOSE for c in calls_of(o))
+    return any(s["op"]["k"] in CHANGERS and s["errno"] == 0 for s in steps)
+
+
+def count_distinct_nontrivial(obs, pid):
+    return len({json.dumps([o.get("steps"), o.get("inject"), o.get("log"), o.get("kind")], sort_keys=True) for o in obs if nontrivial(o, pid)})
+
+
+def pick_samples(obs, pid, slim):
+    """Representative records: the non-gated history with an injected failure that makes the most backend calls,
+    the complete (all connections stopped) history with the most successful rename/unlink requests, one gated scenario."""
+    out = []
+    inj = [o for o in obs if not o.get("gated") and o.get("inject") and nontrivial(o, pid)]
+    if inj:
+        out.append(max(inj, key=lambda o: len(calls_of(o))))
+    comp = [o for o in obs if not o.get("gated") and o.get("complete") and not o.get("inject")]
+    if comp:
+        out.append(max(comp, key=lambda o: (sum(1 for s in o["steps"] if s["op"]["k"] in CHANGERS and s["errno"] == 0), len(calls_of(o)))))
+    gated = [o for o in obs if o.get("gated")]
+    if gated:
+        out.append(gated[0])
+    if not out and obs:
+        out.append(obs[0])
+    return [slim(o) for o in out]
